@@ -108,7 +108,7 @@ def main():
             n = pos + rng.choice([0, 1, 5, rng.randrange(10000)])
             sw = rng.choice([None, None, 64, 33])
             flat = " ".join("%d %d" % r for r in runs)
-            write_case(d, i, F.enc_rl(n, runs, sw), ["type rl", "n %d" % n, "runs " + flat])
+            write_case(d, i, F.enc_rl(n, runs, sw, pad_last=(rng.random() < 0.3)), ["type rl", "n %d" % n, "runs " + flat])
         elif kind == 5:  # wavelet matrix
             width = 1 + rng.randrange(10)
             n = rng.choice([0, 1, 2, 64, 65, rng.randrange(600)])
